@@ -299,6 +299,7 @@ HISTORY_DOCS = [
 
 
 def run(s):
+    K.hostile_callers(s)
     q = s.tier == 'quick'
     cfg = os.environ.get('VERIF_CFG', 'default')
     s.hist['cfg:%s warnoptions=%s' % (cfg, sys.warnoptions)] += 1
